@@ -149,7 +149,14 @@ def plan(tier):
     for name, params, kind in pc.partitions2(tier, "C06"):
         if params.get("order") == 1:
             continue  # both orders are compared inside one path
-        P.append(Part(H + "h_main", params, name.replace("pipe2[j>>q,w>>x|", "ctx["), kind=kind, group="context", timeout=2400, path_timeout=300))
+        nm = name.replace("pipe2[j>>q,w>>x|", "ctx[")
+        if params["fix"].get("m1") == 4:
+            # five pipeline runs per path: split the merge-result space to keep partitions short
+            for jjc in (0, 1, 2):
+                p2 = dict(params, fix=dict(params["fix"], jjC=jjc))
+                P.append(Part(H + "h_main", p2, nm.replace("]", ",jjC=%d]" % jjc), kind=kind, group="context", timeout=2400, path_timeout=300))
+        else:
+            P.append(Part(H + "h_main", params, nm, kind=kind, group="context", timeout=2400, path_timeout=300))
     fix = dict(pc.ROW2["mcs-ok"])
     fix.update({"m1": 0, "jq": 0, "qq": 0})
     P.append(Part(H + "h_main", {"shape": ["j>>q", "w>>x"], "E": ["C", "H"], "K": 2, "twin": "differs", "fix": fix}, "ctx.twin[differs]", kind="twin", group="context", timeout=600))
